@@ -5,6 +5,7 @@ import Codec
 import BiscuitModel.Model.Versions
 import BiscuitModel.Model.Params
 import BiscuitModel.Model.Keys
+import BiscuitModel.Model.Untrusted
 open Lean Biscuit Biscuit.Codec
 
 def runExpr (j : Json) : P Json := do
@@ -641,6 +642,40 @@ def runKeys (j : Json) : P Json := do
 
 end KeysOp
 
+/-! ### untrusted (C09) -/
+section UntrustedOp
+open Biscuit.Untrusted
+
+def strOpt (o : Option Str) : Json :=
+  match o with
+  | some s => Json.str (String.fromUTF8! ⟨s.toArray⟩)
+  | none => Json.null
+
+def runUntrusted (j : Json) : P Json := do
+  let kind ← (← field j "kind").getStr?
+  match kind with
+  | "token" =>
+    -- the accessor sweep asks for indices 0 .. count + 2 of a token of `nblocks` blocks
+    let n ← getNat (← field j "nblocks")
+    let blocks := List.range (n - 1)
+    let idx := (List.range (n + 3)).map fun i =>
+      Json.bool (match blockAt 0 blocks i with | .ok _ => true | .error _ => false)
+    pure (Json.mkObj [("count", Json.num (JsonNumber.fromNat (blockCount blocks))), ("idx", Json.arr idx.toArray)])
+  | "symprobe" =>
+    let table ← (← getArr (← field j "table")).mapM fun s => do pure (← s.getStr?).toUTF8.toList
+    let extra ← (← getArr (← field j "extra")).mapM fun s => do pure (← s.getStr?).toUTF8.toList
+    let ids ← (← getArr (← field j "ids")).mapM getNat
+    let t : SymbolTable := ⟨table⟩
+    let (tmp, extraIds) := extra.foldl (fun (acc : TempSyms × List Nat) s => let (t', i) := acc.1.insert s; (t', acc.2 ++ [i])) (TempSyms.new t, [])
+    pure (Json.mkObj [
+      ("get", Json.arr (ids.map fun i => strOpt (t.getSymbol i)).toArray),
+      ("print_default", Json.arr (ids.map fun i => strOpt (some (printSymbolDefault t i))).toArray),
+      ("tmp_get", Json.arr (ids.map fun i => strOpt (tmp.getSymbol i)).toArray),
+      ("extra_ids", Json.arr (extraIds.map fun i => Json.num (JsonNumber.fromNat i)).toArray)])
+  | _ => pure (Json.mkObj [("r", "unmodelled")])
+
+end UntrustedOp
+
 def handle (line : String) : String :=
   match Json.parse line with
   | .error e => (Json.mkObj [("driver_error", s!"parse: {e}")]).compress
@@ -664,6 +699,7 @@ def handle (line : String) : String :=
       | "print" => runPrint j
       | "params" => runParams j
       | "keys" => runKeys j
+      | "untrusted" => runUntrusted j
       | _ => throw s!"unknown op {op}"
     match r with
     | .ok o => o.compress
